@@ -86,8 +86,27 @@ fn imports(src: &str) -> String {
         format!("{k}={}", hex(c.text.as_str(&heap).as_bytes()))
       })
       .collect();
-    let members: Vec<String> =
-      import.imported_members.iter().map(|m| hex(m.name.as_str(&heap).as_bytes())).collect();
+    let members: Vec<String> = import
+      .imported_members
+      .iter()
+      .map(|m| {
+        let name = hex(m.name.as_str(&heap).as_bytes());
+        let cs: Vec<String> = module
+          .comment_store
+          .get(m.associated_comments)
+          .iter()
+          .map(|c| {
+            let k = match c.kind {
+              CommentKind::LINE => "line",
+              CommentKind::BLOCK => "block",
+              CommentKind::DOC => "doc",
+            };
+            format!("{k}={}", hex(c.text.as_str(&heap).as_bytes()))
+          })
+          .collect();
+        if cs.is_empty() { name } else { format!("{name}@{}", cs.join("&")) }
+      })
+      .collect();
     parts.push(format!(
       "{};{};{}",
       hex(import.imported_module.pretty_print(&heap).as_bytes()),
